@@ -131,6 +131,11 @@ func runC11(c *Ctx) {
 	p.Pkts = pk
 	if endPkt != nil {
 		p.Pkts = append(append([]CPkt{}, pk...), *endPkt)
+		if tr == "legacy" && c.T.Bool(1, 6) {
+			// the packet that ends the tunnel comes after 6-16 minutes of silence
+			p.QuietBefore = map[int]time.Duration{len(pk): time.Duration(6+c.T.Choose(11)) * time.Minute}
+			c.S.Count("probe.session_longer_than_cache_lifetimes")
+		}
 		if c.T.Bool(1, 3) {
 			// the client had more packets in flight behind the one that ends the tunnel
 			for k := 1 + c.T.Choose(3); k > 0; k-- {
@@ -219,6 +224,12 @@ func runC11(c *Ctx) {
 	}
 	// let part of the traffic flow, then the connection-level end causes
 	c.S.Run(nil, c.T.Choose(30), time.Second)
+	if tr == "legacy" && endPkt == nil && !stalled && c.T.Bool(1, 6) && c.S.PendingDials() == 0 {
+		// a session that outlived every cache lifetime inside the gateway before it ends
+		c.S.Advance(time.Duration(6+c.T.Choose(11)) * time.Minute)
+		c.S.Run(nil, 50, time.Second)
+		c.S.Count("probe.session_longer_than_cache_lifetimes")
+	}
 	switch cause {
 	case "client-eof":
 		cl.CloseAll(false)
